@@ -43,12 +43,14 @@ def mechanism_constants():
             for name, (const, written, fixed) in DEVIATIONS.items()}
 
 
-def cfg_text(name, consts):
-    """A cfg of spec/ with the mechanism constants substituted."""
+def cfg_text(name, consts, strict=False):
+    """A cfg of spec/ with the mechanism constants substituted (and C20_Strict added to its invariants)."""
     import re
     c = open(os.path.join(vlib.SPEC, name)).read()
     for const, val in consts.items():
         c = re.sub(r"(?m)^(\s*%s\s*=\s*)\S+\s*$" % const, lambda m: m.group(1) + val, c)
+    if strict:
+        c = c.replace("INVARIANTS TypeOK", "INVARIANTS C20_Strict TypeOK")
     return c
 
 
@@ -60,6 +62,10 @@ def run(ctx):
     # renderer vectors
     consts = mechanism_constants()
     cov["mechanism_constants"] = consts
+    # when every named deviation is recorded as fixed the model as recorded *is* the repaired model: check the strict
+    # invariant in the same runs instead of a separate run with the repaired constants
+    all_repaired = all(consts[c] == fixed for (c, _, fixed) in DEVIATIONS.values())
+    cov["strict_invariant_checked_on_main_model"] = all_repaired
     vec = os.path.join(ctx.scratch, "logvec.ndjson")
     r, nvec = cl.tlc_vectors(ctx, "LogLineVec", "vec.cfg", vec, timeout=900,
                              files={"vec.cfg": cfg_text("LogLineVec_%s.cfg" % tier, consts)})
@@ -75,7 +81,7 @@ def run(ctx):
         for cfg in cfgs:
             part = os.path.join(ctx.scratch, cfg + ".ndjson")
             r, n = cl.tlc_vectors(ctx, "LogLineMC", "mc.cfg", part, timeout=2400, seed=ctx.seed, heap="6g",
-                                  files={"mc.cfg": cfg_text(cfg, consts)})
+                                  files={"mc.cfg": cfg_text(cfg, consts, strict=all_repaired)})
             cov["tlc"][cfg[:-4]] = r.summary()
             states += r.distinct
             transitions += r.generated
@@ -85,14 +91,15 @@ def run(ctx):
                 for line in f:
                     out.write(line)
             nbeh += n
-    fixed = "LogLineMC_fixed.cfg" if ctx.quick else "LogLineMC_fixed4.cfg"
-    r = vlib.tlc(ctx, "LogLineMC", cfg=fixed, workers=4, timeout=1800, heap="6g", jprops=cl.MEMQ)
-    cov["tlc"][fixed[:-4]] = r.summary()
-    if not r.ok:
-        raise vlib.InfraError("LogLineMC with the repaired constants violates %s: the proposed fixes are wrong at model level\n%s" %
-                              (r.violated, r.out[-2000:]))
-    states += r.distinct
-    transitions += r.generated
+    if not all_repaired:
+        fixed = "LogLineMC_fixed.cfg" if ctx.quick else "LogLineMC_fixed4.cfg"
+        r = vlib.tlc(ctx, "LogLineMC", cfg=fixed, workers=4, timeout=1800, heap="6g", jprops=cl.MEMQ)
+        cov["tlc"][fixed[:-4]] = r.summary()
+        if not r.ok:
+            raise vlib.InfraError("LogLineMC with the repaired constants violates %s: the proposed fixes are wrong at model level\n%s" %
+                                  (r.violated, r.out[-2000:]))
+        states += r.distinct
+        transitions += r.generated
     # the real code
     s = cl.drive(ctx, binary, ["-vectors", vec, "-behaviours", beh], timeout=1200)
     if s.get("oracle_mismatch"):
